@@ -5,7 +5,8 @@ root = os.path.dirname(os.path.dirname(os.path.abspath(__file__)))
 ov = ["harness/json"]
 # index, name, uses vfLen (string length), uses vfLen2
 shapes = [(0, "basic", True, False), (1, "ptrs", False, False), (2, "strtag", True, False), (3, "slices", True, False), (4, "maps", True, False),
-          (5, "nested", True, False), (6, "iface", True, False), (7, "numraw", True, True), (8, "marsh", True, False)]
+          (5, "nested", True, False), (6, "iface", True, False), (7, "numraw", True, True), (8, "marsh", True, False),
+          (9, "fastmaps", True, False), (10, "addrV", False, False), (11, "addrP", False, False)]
 def unit(name, desc, harness, grid, covers, **kw):
     u = {"name": name, "desc": desc, "pkg": "./json", "overlay": ov, "harness": harness, "grid": grid, "covers": covers, "timeout_ms": 30000}
     u.update(kw); return u
@@ -36,6 +37,16 @@ c14 = {"property": "C14", "title": "json flags change representation or copying,
 for i, n, ulen, ulen2 in shapes:
     g = {"vfShape": {"all": [i]}, "vfLen": lens(ulen, [1], [0, 1, 2]), "vfLen2": lens(ulen2, [2], [0, 2, 3])}
     c14["units"].append(unit("H14-enc-" + n, "all AppendFlags subsets (shape %s)" % n, "vfH_c14_enc", g, ["done"], split={"all": 6}))
+rt_shapes = [x for x in shapes if x[0] in (0, 1, 2, 3, 4, 5, 6, 7, 9)]
+for i, n, ulen, ulen2 in rt_shapes:
+    g = {"vfShape": {"all": [i]}, "vfRT": {"all": [1]}, "vfLen": lens(ulen, [1], [0, 1, 2]), "vfLen2": lens(ulen2, [2], [0, 2, 3]), "vfFlags": {"quick": [15, 5], "thorough": "0..15"}}
+    c14["units"].append(unit("H14-dec-" + n, "Parse(default output, subset of DontCopyString|DontCopyNumber|DontCopyRawMessage|DontMatchCaseInsensitiveStructFields) restores the value (shape %s)" % n, "vfH_c14_dec", g, ["done"], split={"all": 6}))
+c14["units"].append(unit("H14-num-free", "all 16 subsets of UseNumber|UseBigInt|UseInt64|UseUint64 on every valid number literal of the length parsed into an interface: dynamic type by documented precedence, value preserved", "vfH_c14_num",
+                         {"vfMode": {"all": [0]}, "vfLen": {"quick": "1..3", "thorough": "1..4"}, "vfFlags": {"all": "0..15"}}, ["uint64", "int64", "big", "Number", "float64"]))
+c14["units"].append(unit("H14-num-limits", "the same on 18..21-digit literals around the int64/uint64 limits (last two digits free, one digit more or fewer)", "vfH_c14_num",
+                         {"vfMode": {"all": "1..6"}, "vfFlags": {"all": "0..15"}}, ["uint64", "int64", "big", "Number", "float64"]))
+c14["outside_claim"] = ["types outside the catalogue", "float64 VALUES chosen for numbers in interfaces (strconv.ParseFloat is an opaque stub; the dynamic type is checked)", "number literals longer than 4 bytes other than the limit families"]
+c14["assumptions"] += ["decode side: the input of Parse is a private copy of the default output; equality of the restored value is observed through its canonical re-encoding", "math/big is executed from its pure-Go sources (build tag math_big_pure_go); *big.Int results are compared with a 128-bit reference evaluation of the digits"]
 c06 = {"property": "C06", "title": "json never panics, faults, overflows the stack or hangs", "level": "model_checking", "assumptions": assume + ["engine monitors on every path: Go run-time panics, out-of-object access through unsafe, wild pointers, step and call-depth budgets (a budget end is replayed natively in a sub-process and is a violation when the real code crashes or hangs)"],
        "outside_claim": ["recursion depth proportional to input nesting is unbounded in the code; only depths within the input bounds are explored", "types outside the catalogue", "decode side: see units H06-dec-* if present"], "units": []}
 for i, n, ulen, ulen2 in shapes:
@@ -43,6 +54,11 @@ for i, n, ulen, ulen2 in shapes:
     c06["units"].append(unit("H06-enc-" + n, "Marshal by value and by pointer: no panic, same bytes (shape %s)" % n, "vfH_c06_enc", g, ["done"], split={"all": 6}))
 c06["units"].append(unit("H06-direct", "pointer-shaped values passed by value ([1]*T, struct{*T}, map, nested)", "vfH_c06_direct", {"vfMode": {"all": "0..6"}}, ["done"]))
 c06["units"].append(unit("H06-cycle", "self-referential values through pointer, slice and map", "vfH_c06_cycle", {"vfMode": {"all": [0, 1, 2]}}, [], hang_is_violation=True, maxsteps=50000000))
+c06["units"].append(unit("H06-dec", "every byte string of the length into 16 targets (five specialised maps, named map type, structs with embedded pointer / ,string / slices / pointers, slices of structs, interfaces, arrays of slices, pointer to struct, Number+RawMessage)", "vfH_c06_dec",
+                         {"vfMode": {"all": "0..15"}, "vfLen": {"quick": "0..3", "thorough": "0..4"}}, ["rejected"], warm="vfWarm_c06", split={"all": 4}))
+c06["units"].append(unit("H06-trunc", "a valid document per target cut at every offset and with one arbitrary byte at an arbitrary position (Unmarshal; thorough also Parse with ZeroCopy)", "vfH_c06_trunc",
+                         {"vfMode": {"all": "0..15"}, "vfFlags": {"quick": [0], "thorough": [0, 1]}}, ["intact", "truncated", "corrupt"], warm="vfWarm_c06", split={"all": 8}))
+c06["outside_claim"] = ["recursion depth proportional to input nesting is unbounded in the code; only depths within the input bounds are explored", "types outside the catalogue and the 16 decode targets", "documents other than free bytes up to the bound and single-byte corruptions / truncations of the 16 template documents", "float exponents in decode inputs (strconv.ParseFloat is an opaque stub)"]
 for fn, spec in (("C01", c01), ("C15", c15), ("C14", c14), ("C06", c06)):
     json.dump(spec, open(os.path.join(root, "spec", fn + ".json"), "w"), indent=1)
 print("ok")
